@@ -9,7 +9,7 @@ trap "git -C /repo worktree remove --force $WT >/dev/null 2>&1" EXIT
 export GIT_CONFIG_GLOBAL=/dev/null GOFLAGS=-mod=mod GOPROXY=off
 cd $WT
 demo() {
-  if [ "$PKG" = sh ]; then bash $D/demo.sh $WT >/tmp/confirm-demo-$$.log 2>&1;
+  if [ "$PKG" = sh ]; then SRC=$WT bash $D/demo.sh $WT >/tmp/confirm-demo-$$.log 2>&1;
   elif [ "$PKG" = shbin ]; then mkdir -p /tmp/confirm-bin-$$ && go build -o /tmp/confirm-bin-$$/git-lfs . && (cd /tmp && PATH=/tmp/confirm-bin-$$:$PATH bash $D/demo.sh /tmp/confirm-bin-$$/git-lfs) >/tmp/confirm-demo-$$.log 2>&1; else cp $D/demo_test.go $WT/$PKG/zz_seed_demo_test.go; go test -vet=off -count=1 -run "$RUN" ./$PKG/ >/tmp/confirm-demo-$$.log 2>&1; fi
   rc=$?; rm -f $WT/$PKG/zz_seed_demo_test.go; return $rc
 }
